@@ -27,6 +27,8 @@ pub enum Kind {
     PwStrVerify,
     PwStrNeedsRehash,
     PwObjFromString,
+    /// build N: signed message parsed into the protected heap containers
+    SignObjFromBytesHeap,
 }
 
 impl Kind {
@@ -44,6 +46,7 @@ impl Kind {
             Kind::PwStrVerify => "crypto_pwhash_str_verify",
             Kind::PwStrNeedsRehash => "crypto_pwhash_str_needs_rehash",
             Kind::PwObjFromString => "PwHash::from_string+verify+to_string",
+            Kind::SignObjFromBytesHeap => "SignedMessage<HeapByteArray,HeapBytes>::from_bytes+verify",
         }
     }
     fn is_string(&self) -> bool {
@@ -52,7 +55,7 @@ impl Kind {
     /// length of the fixed authenticator that precedes the message on the wire
     fn overhead(&self) -> usize {
         match self {
-            Kind::SignOpen | Kind::SignVerifyDetached | Kind::SignObjFromBytesVerify | Kind::SignIncFinalVerify | Kind::SignObjIncVerify => 64,
+            Kind::SignOpen | Kind::SignVerifyDetached | Kind::SignObjFromBytesVerify | Kind::SignIncFinalVerify | Kind::SignObjIncVerify | Kind::SignObjFromBytesHeap => 64,
             Kind::AuthVerify | Kind::AuthObjVerify => 32,
             Kind::OtaVerify | Kind::OtaObjVerify => 16,
             _ => 0,
@@ -60,7 +63,7 @@ impl Kind {
     }
     /// can the entry point be handed a wire of arbitrary length?
     fn combined(&self) -> bool {
-        matches!(self, Kind::SignOpen | Kind::SignObjFromBytesVerify) || self.is_string()
+        matches!(self, Kind::SignOpen | Kind::SignObjFromBytesVerify | Kind::SignObjFromBytesHeap) || self.is_string()
     }
 }
 
@@ -195,7 +198,7 @@ impl VerifierWorld {
                 w.extend_from_slice(&msg);
                 w
             }
-            Kind::SignObjFromBytesVerify => {
+            Kind::SignObjFromBytesVerify | Kind::SignObjFromBytesHeap => {
                 let kp: dryoc::sign::SigningKeyPair<dryoc::sign::PublicKey, dryoc::sign::SecretKey> = dryoc::sign::SigningKeyPair::from_slices(&self.sign_pk, &self.sign_sk).expect("kp");
                 let sm: dryoc::sign::SignedMessage<dryoc::sign::Signature, Vec<u8>> = kp.sign(msg.clone()).expect("sign");
                 sm.to_vec()
@@ -419,6 +422,21 @@ impl VerifierWorld {
                         Err(_) => Some(false),
                     }
                 }
+                #[cfg(feature = "nightly")]
+                Kind::SignObjFromBytesHeap => {
+                    use dryoc::protected::{HeapByteArray, HeapBytes};
+                    let sm: Result<dryoc::sign::SignedMessage<HeapByteArray<64>, HeapBytes>, _> = dryoc::sign::SignedMessage::from_bytes(w);
+                    match sm {
+                        Ok(sm) => {
+                            let pkk: dryoc::sign::PublicKey = pk.into();
+                            let _ = sm.to_vec();
+                            Some(sm.verify(&pkk).is_ok())
+                        }
+                        Err(_) => Some(false),
+                    }
+                }
+                #[cfg(not(feature = "nightly"))]
+                Kind::SignObjFromBytesHeap => panic!("harness: kind not available in this build"),
                 Kind::SignIncFinalVerify => {
                     let sig: [u8; 64] = w[..64].try_into().unwrap();
                     let mut st = crypto_sign_init();
@@ -497,7 +515,13 @@ impl World for VerifierWorld {
 
     fn gen_config(rng: &mut Rng, prop: &str, _tier: Tier, _run: u64) -> Config {
         // string kinds get half of the runs: they have by far the largest parser
-        let kind = if rng.chance(1, 2) { *rng.pick(&KINDS[9..]) } else { *rng.pick(&KINDS[..9]) };
+        let kind = if cfg!(feature = "nightly") {
+            Kind::SignObjFromBytesHeap
+        } else if rng.chance(1, 2) {
+            *rng.pick(&KINDS[9..])
+        } else {
+            *rng.pick(&KINDS[..9])
+        };
         Config { prop: prop.to_string(), kind, rseed: rng.next_u64(), argon2i: rng.chance(1, 3), deliveries: 2 + rng.usize_below(6) }
     }
 
